@@ -68,7 +68,7 @@ TraceNode ==
          THEN /\ Advance(Ev[l].s) /\ ((pc' = "hit") <=> Ev[l].crossed)
               /\ Ev[l].gp = g[Len(g)]          \* the driver's g_prev is the sign at the previous accepted node
               /\ Ev[l].d = dir                 \* ... and it passes the requested direction on
-         ELSE /\ layer = "step" /\ pc = "step"
+         ELSE /\ layer = "step"               \* loaded whatever the driver did before (even after a hit)
               /\ g' = Append(g, Ev[l].s)
               /\ IF Ev[l].crossed THEN pc' = "hit" /\ hitStep' = Len(g) ELSE pc' = "step" /\ hitStep' = 0
               /\ UNCHANGED <<layer, dir, f, ncross, xtol, a, b, gl, xhit, reason, path>>
@@ -76,27 +76,28 @@ TraceNode ==
 
 TraceReject ==
     /\ IsEvent("reject")
-    /\ layer = "step" /\ pc = "step"
+    /\ layer = "step" /\ (Strict => pc = "step")
     /\ UNCHANGED <<vars, near>>
 
 TraceHit ==
     /\ IsEvent("hit")
-    /\ layer = "step" /\ pc = "hit"
+    /\ layer = "step" /\ (Strict => pc = "hit")
     /\ Strict => (Ev[l].step = hitStep /\ Ev[l].y0 = hitStep - 1 /\ Ev[l].y1 = hitStep /\ Ev[l].d = dir)
     /\ IF Strict THEN UNCHANGED vars
-       ELSE hitStep' = Ev[l].step /\ UNCHANGED <<layer, dir, g, pc, f, ncross, xtol, a, b, gl, xhit, reason, path>>
+       ELSE hitStep' = Ev[l].step /\ pc' = "hit"
+            /\ UNCHANGED <<layer, dir, g, f, ncross, xtol, a, b, gl, xhit, reason, path>>
     /\ UNCHANGED near
 
 TraceEnd ==
     /\ IsEvent("end")
     /\ IF Strict THEN NoEventEnd /\ Ev[l].node = Len(g) - 1
-       ELSE /\ layer = "step" /\ pc = "step" /\ pc' = "end"
-            /\ UNCHANGED <<layer, dir, g, hitStep, f, ncross, xtol, a, b, gl, xhit, reason, path>>
+       ELSE /\ layer = "step" /\ pc' = "end" /\ hitStep' = 0
+            /\ UNCHANGED <<layer, dir, g, f, ncross, xtol, a, b, gl, xhit, reason, path>>
     /\ UNCHANGED near
 
 TraceLocated ==
     /\ IsEvent("located")
-    /\ layer = "step" /\ pc = "hit"
+    /\ layer = "step" /\ (Strict => pc = "hit")
     /\ near' = Ev[l].near
     /\ UNCHANGED vars
 
@@ -104,7 +105,7 @@ TraceLocated ==
 TraceZero ==
     /\ IsEvent("zero")
     /\ IF Strict THEN GtolHitWith(0) /\ Ev[l].mid = Mid
-       ELSE /\ layer = "refine" /\ pc = "mid" /\ pc' = "done" /\ xhit' = Ev[l].mid /\ reason' = "gtol"
+       ELSE /\ layer = "refine" /\ pc' = "done" /\ xhit' = Ev[l].mid /\ reason' = "gtol"
             /\ UNCHANGED <<layer, dir, g, hitStep, f, ncross, xtol, a, b, gl, path>>
     /\ UNCHANGED near
 
@@ -115,7 +116,7 @@ TraceUpd ==
               /\ Ev[l].mid = Mid
               /\ a' = Ev[l].a /\ b' = Ev[l].b
               /\ Ev[l].crossed <=> CrossedDirection(gl, Ev[l].gm, dir)
-         ELSE /\ layer = "refine" /\ pc = "mid" /\ pc' = "conv"
+         ELSE /\ layer = "refine" /\ pc' = "conv"
               /\ a' = Ev[l].a /\ b' = Ev[l].b /\ gl' = IF Ev[l].crossed THEN gl ELSE Ev[l].gm
               /\ UNCHANGED <<layer, dir, g, hitStep, f, ncross, xtol, xhit, reason, path>>
     /\ UNCHANGED near
@@ -123,7 +124,7 @@ TraceUpd ==
 TraceConv ==
     /\ IsEvent("conv")
     /\ IF Strict THEN (IF Ev[l].v THEN XtolStop ELSE Continue)
-       ELSE /\ layer = "refine" /\ pc = "conv"
+       ELSE /\ layer = "refine"
             /\ IF Ev[l].v THEN pc' = "done" /\ xhit' = b /\ reason' = "xtol"
                           ELSE pc' = "mid" /\ UNCHANGED <<xhit, reason>>
             /\ UNCHANGED <<layer, dir, g, hitStep, f, ncross, xtol, a, b, gl, path>>
@@ -131,11 +132,11 @@ TraceConv ==
 
 TraceStop ==
     /\ IsEvent("stop")
-    /\ layer = "refine" /\ pc = "done"
+    /\ layer = "refine" /\ (Strict => pc = "done")
     /\ Strict => (Ev[l].x = xhit /\ Ev[l].reason = reason)
     /\ IF Strict THEN UNCHANGED vars
-       ELSE xhit' = Ev[l].x /\ reason' = Ev[l].reason
-            /\ UNCHANGED <<layer, dir, g, pc, hitStep, f, ncross, xtol, a, b, gl, path>>
+       ELSE xhit' = Ev[l].x /\ reason' = Ev[l].reason /\ pc' = "done"
+            /\ UNCHANGED <<layer, dir, g, hitStep, f, ncross, xtol, a, b, gl, path>>
     /\ UNCHANGED near
 
 TraceNext == (TraceNode \/ TraceReject \/ TraceHit \/ TraceEnd \/ TraceLocated
